@@ -124,6 +124,7 @@ class TokenFile:
             logging.debug("Deleting token file %s", self.path)
             if _verif.ACTIVE:
                 _verif.emit("tok.file.delete", name=self.path.name)
+                _verif.pause("delete.checked")
             self.path.unlink()
 
     def watch(self):
